@@ -527,6 +527,19 @@ def reshape_conditionals(fn, r, stats, key):
                         changed[0] += 1
                         i = j + 1
                         continue
+            if isinstance(s, ast.If) and surplus(s) and not s.orelse and terminates(s.body) and i + 1 < len(stmts) and terminates(stmts[i + 1:]):
+                # `if not T: B...return` / A...return   ==   `if T: A...return` / B...return   (both arms leave the block)
+                from .au import negate
+                flipped = ast.copy_location(ast.If(test=ast.fix_missing_locations(ast.copy_location(negate(copy.deepcopy(s.test)), s.test)),
+                                                   body=stmts[i + 1:], orelse=[]), s)
+                if wanted(flipped):
+                    swap([s], [flipped])
+                    flipped.body = blk(flipped.body) if False else flipped.body
+                    out.append(flipped)
+                    out.extend(s.body)
+                    changed[0] += 1
+                    i = len(stmts)
+                    continue
             if isinstance(s, ast.If) and surplus(s):
                 hit = [(e, used) for e, used in _as_ifexp(s, stmts[i + 1] if i + 1 < len(stmts) else None) if wanted(e)]
                 if hit:
